@@ -234,3 +234,49 @@ def is_decode_helper(ctx, h, datap):
     rets = [n for n in own_nodes(h.node) if isinstance(n, ast.Return)]
     return bool(rets) and all(r.value is not None and ((isinstance(r.value, ast.Call) and is_attr(r.value.func, 'decode', datap)) or is_name(r.value, datap))
                               for r in rets)
+
+
+def check_regex_table_ownership(ctx, rid):
+    """The compiled rule table of a lexer is exactly what set_SQL_REGEX compiled from its argument: the only
+    writers of self._SQL_REGEX are clear() (fresh empty list) and set_SQL_REGEX (one store of the comprehension
+    over its parameter); default_initialization passes keywords.SQL_REGEX.  Any other writer (insert/append/
+    extend/item store, derived rules) means the table the checks analyse is not the table that lexes."""
+    repo = ctx.repo
+    c = repo.cls(LEXER)
+    n = 0
+    for m in c.methods.values():
+        for x in own_nodes(m.node):
+            site = None
+            if isinstance(x, ast.Assign) and any(is_attr(t, '_SQL_REGEX', 'self') for t in x.targets):
+                site = ('store', x)
+            elif isinstance(x, (ast.Assign, ast.AugAssign, ast.Delete)):
+                tg = x.targets if isinstance(x, (ast.Assign, ast.Delete)) else [x.target]
+                if any(isinstance(t, ast.Subscript) and is_attr(t.value, '_SQL_REGEX', 'self') for t in tg) or \
+                        (isinstance(x, ast.AugAssign) and is_attr(x.target, '_SQL_REGEX', 'self')):
+                    site = ('item-store', x)
+            elif isinstance(x, ast.Call) and isinstance(x.func, ast.Attribute) and is_attr(x.func.value, '_SQL_REGEX', 'self') \
+                    and x.func.attr in ('insert', 'append', 'extend', 'pop', 'remove', 'sort', 'reverse', 'clear', '__setitem__'):
+                site = ('mutation', x)
+            if site is None:
+                continue
+            n += 1
+            kind, node = site
+            ok = False
+            if kind == 'store' and m.name == 'clear':
+                ok = isinstance(node.value, ast.List) and not node.value.elts
+            elif kind == 'store' and m.name == 'set_SQL_REGEX':
+                v = node.value
+                ok = isinstance(v, ast.ListComp) and len(v.generators) == 1 and is_name(v.generators[0].iter, m.params[1]) and not v.generators[0].ifs
+            ctx.ob(rid, f'{m.name}:{kind}:{src(node)[:50]}', _loc(m, node),
+                   'self._SQL_REGEX is written only by clear() and by the single store in set_SQL_REGEX', ok,
+                   f'`{src(node)[:90]}` in Lexer.{m.name} changes the compiled rule table behind the analysed SQL_REGEX: rules that no check has '
+                   'seen (width, ambiguity, precedence, extents) take part in lexing')
+    # other classes/functions writing the table of a lexer object
+    for f in repo.funcs.values():
+        if f.cls is c:
+            continue
+        for x in own_nodes(f.node):
+            if isinstance(x, ast.Attribute) and x.attr == '_SQL_REGEX' and isinstance(x.ctx, ast.Store):
+                n += 1
+                ctx.ob(rid, f'{f.short}:external-store', _loc(f, x), 'no code outside Lexer writes _SQL_REGEX', False, f'`{src(x)}` in {f.short}')
+    ctx.need(n >= 2, 'Lexer no longer stores self._SQL_REGEX in clear()/set_SQL_REGEX')
